@@ -225,6 +225,25 @@ N("slicelen-check-spelled-backwards", ["C08"],
   [("src/bytes.rs", "    pub const fn try_from_be_slice(bytes: &[u8]) -> Option<Self> {\n        if bytes.len() > Self::BYTES {\n            return None;\n        }\n",
     "    pub const fn try_from_be_slice(bytes: &[u8]) -> Option<Self> {\n        let n = bytes.len();\n        if !(n <= Self::BYTES) {\n            return None;\n        }\n")])
 
+# ---- R-FLAG mask-discard: a flag computed from the whole value beforehand is not a finding
+N("idiom-shl-flag-from-leading_zeros", ["C05"],
+  [("src/bits.rs", "        let mut overflow = carry != 0;\n        for i in Self::LIMBS - limbs..Self::LIMBS {\n            overflow |= self.limbs[i] != 0;\n        }\n        overflow |= r.limbs[Self::LIMBS - 1] > Self::MASK;\n        r.apply_mask();",
+    "        let _ = carry;\n        let overflow = !self.is_zero() && rhs > self.leading_zeros();\n        r.apply_mask();")])
+# ---- context-sensitive discharge: a helper with a precondition called with the precondition established
+N("idiom-shl-in-place-with-helper-and-copy_within", ["C05"],
+  [("src/bits.rs", "use crate::Uint;\nuse core::ops::{", "use crate::{algorithms, Uint};\nuse core::ops::{"),
+   ("src/bits.rs", "    pub fn overflowing_shl(self, rhs: usize) -> (Self, bool) {", "    pub fn overflowing_shl(mut self, rhs: usize) -> (Self, bool) {"),
+   ("src/bits.rs", "        let word_bits = 64;\n        let mut r = Self::ZERO;\n        let mut carry = 0;\n        for i in 0..Self::LIMBS - limbs {\n            let x = self.limbs[i];\n            r.limbs[i + limbs] = (x << bits) | carry;\n            carry = (x >> (word_bits - bits - 1)) >> 1;\n        }\n        // The bits shifted out are the final carry, the limbs above the\n        // shifted window and the bits above `BITS` in the last limb.\n        let mut overflow = carry != 0;\n        for i in Self::LIMBS - limbs..Self::LIMBS {\n            overflow |= self.limbs[i] != 0;\n        }\n        overflow |= r.limbs[Self::LIMBS - 1] > Self::MASK;\n        r.apply_mask();\n        (r, overflow)",
+    "        let mut overflow = false;\n        for i in LIMBS - limbs..LIMBS {\n            overflow |= self.limbs[i] != 0;\n        }\n        self.limbs.copy_within(..LIMBS - limbs, limbs);\n        self.limbs[..limbs].fill(0);\n        if bits != 0 {\n            overflow |= algorithms::shift_left_small(&mut self.limbs, bits) != 0;\n        }\n        overflow |= self.limbs[LIMBS - 1] > Self::MASK;\n        self.apply_mask();\n        (self, overflow)")])
+B("copy_within-dest-out-of-range", ["C05"],
+  [("src/bits.rs", "        let word_bits = 64;\n        let mut r = Self::ZERO;", "        let mut probe = self.limbs;\n        probe.copy_within(..LIMBS - limbs, limbs + 1);\n        let word_bits = 64 + (probe[0] & 0) as usize;\n        let mut r = Self::ZERO;")], "copy_within")
+
+# ---- R-CODEC/rlp-header (C16): 0x80 + n only for n <= 55 (seed Q6/C16, re-created)
+B("rlp-short-header-threshold-56", ["C16"],
+  [("src/support/alloy_rlp.rs", "const MAX_BITS: usize = 55 * 8;", "const MAX_BITS: usize = 56 * 8;")], "short-header")
+N("rlp-short-header-by-payload-length", ["C16"],
+  [("src/support/alloy_rlp.rs", "                if bits > MAX_BITS {", "                let _ = MAX_BITS;\n                if trimmed.len() >= 56 {")])
+
 # ---- R-TOTAL/overflow-checks on C16 (defect F16, re-created)
 B("ovf-scale-size_hint-256-bit-formula", ["C16"],
   [("src/support/scale.rs", "            _ => self.0.byte_len() + 1,\n", "            _ => (32 - self.0.leading_zeros() / 8) + 1,\n")], "Overflow(Sub:32")
